@@ -576,7 +576,8 @@ class PeerConnection:
                         self._read_buffer = self._read_buffer[msg_header.length:]
 
                 except Exception as e:
-                    if msg_header and len(self._read_buffer) >= msg_header.length:
+                    if (msg_header and msg_header.length > 0 and
+                            len(self._read_buffer) >= msg_header.length):
                         self.logger.warning(
                             f"received garbage: {e}, discarding {msg_header.length} "
                             f"bytes")
